@@ -39,6 +39,11 @@ def fieldDiff (a b : Rec) : String :=
 def prop (trace : List (Rec × List Rec)) : Option String := Id.run do
   let mut s := TurnAdapter.init
   for (op, obs) in trace do
+    -- outside the property's domain (speeds are positive): stop judging this history
+    if op.name == "add" && (op.ints "ids").any (fun i => !(s.spd i > 0)) then return none
+    if op.name == "spd" && !(op.flt "v" > 0) then return none
+    if op.name == "setcost" && op.flt "amt" < 0 then return none
+    if op.name == "modcost" && s.cost + op.flt "amt" < 0 then return none
     if obs.any (·.name == "panic") then
       return some s!"panic: {op.name} crashed instead of returning an error"
     let (s', mobs, _) := TurnAdapter.stepRec s op
